@@ -236,10 +236,10 @@ for rt, nm in ((0, 'int'), (1, 'real')):
               desc='cardinality (%s result, real operations/cardinality.cc, real constructor) on a %s forest: operand empty or the terminal true at any level L (2 variables; relations: primed levels too), all level sizes symbolic in [1,%d] (%s); recursion over skipped levels real, unpacking of nodes cut' % (nm, kn.replace('_', ', '), maxsz, be))
 
 # C11 (L1: one step of the masked relation iterator at a skipped primed level)
-for ev, nm in ((1, 'evplus'), (0, 'mt')):
+for ev, entry, nm in ((1, 0, 'evplus'), (0, 0, 'mt'), (1, 1, 'evplus_unpr'), (0, 1, 'mt_unpr'), (1, 2, 'evplus_set'), (0, 2, 'mt_set')):
     J('C11', 'c11_iter_skip_%s' % nm, 'c11_iter_skip.cc', 'c11_iter_skip', units=['edge_value.cc', 'error.cc'],
-      defines={'EV': ev}, gxx_units=['ALL'], gxx_exclude=['dd_edge.cc'], gxx_extra=['-Wl,--allow-multiple-definition'], unwind=6, timeout=900, covers=[1, 2],
-      desc='masked relation iterator (real src/dd_edge.cc iterator_templ::first_pri + first_unpr(0,.), %s): one step for a bound primed variable (mask entry a number in [0,3] or DONT_CHANGE) at a level skipped by the diagram, one-variable fully / identity reduced relation forest, from entry in [0,3], edge below transparent or not: continues exactly when the rule lets the fixed to-value through, reported minterm entries and accumulated edge value; forest::getValueForEdge stood in' % ('EdgeOp_plus<long>' if ev else 'EdgeOp_none'))
+      defines={'EV': ev, 'ENTRY': entry}, gxx_units=['ALL'], gxx_exclude=['dd_edge.cc'], gxx_extra=['-Wl,--allow-multiple-definition'], unwind=6, timeout=900, covers=[1, 2],
+      desc='masked relation iterator (real src/dd_edge.cc iterator_templ::first_pri + first_unpr(0,.), %s): one step for a bound variable (mask entry a number in [0,3] or DONT_CHANGE) at a level skipped by the diagram (entry: %s), one-variable forest, from entry in [0,3], edge below transparent or not: continues exactly when the rule lets the fixed to-value through, reported minterm entries and accumulated edge value; forest::getValueForEdge stood in' % ('EdgeOp_plus<long>' if ev else 'EdgeOp_none', ('first_pri on a fully / identity reduced relation', 'first_unpr then first_pri on a fully / identity reduced relation', 'first_unpr on a fully / quasi reduced set forest')[entry]))
 
 # ---------------------------------------------------------------- C17 (L2: forest / edge registries under a bounded lifecycle history)
 for k, tier, to in ((3, 'quick', 1500), (4, 'quick', 2400), (5, 'thorough', 7200), (6, 'thorough', 14400)):
